@@ -527,3 +527,120 @@ PLANS["C20"] = dict(
     assumptions=["valid configuration: cycle duration > 0, finite delay ≥ 0, positions in [0,1], total duration representable in f32 (delay + cycle×(repeats+1) ≤ f32::MAX), finite values",
                  "FMA contraction / x87 and other optimiser- or target-dependent float behaviour cannot be exhibited by the model; covered only by the two-profile run on this machine (partial)"],
 )
+
+
+# ---------------------------------------------------------------------------------------------------
+# bevy (C18, C19): relational oracles on the real App's observable state, frame by frame
+
+def parse_bevy(o):
+    parts = o.split(" | ")
+    p = parts[0].split(" ")
+    d = dict(state=int(p[0]), pos=int(p[1]), enabled=p[2] == "1", comp=(p[3], p[4]),
+             key=None if parts[1] == "key=-" else int(parts[1][4:]),
+             ev=[int(x) for x in parts[2][3:].split(",") if x], q=None)
+    if parts[3] != "-":
+        q = parts[3].split(" ")
+        d["q"] = dict(state=int(q[0]), pos=int(q[1]), comp=q[2])
+    return d
+
+
+def extra_bevy(prop, tier, seed, profiles):
+    n = 250 if tier == "quick" else 12000
+    path = os.path.join(P.WORK, prop, f"oracle.{tier}.ops")
+    os.makedirs(os.path.dirname(path), exist_ok=True)
+    bbin = P.harness_bin("debug", P.BEVY, "bevy_harness")
+    P.gen_ops("bevy", seed + (18 if prop == "C18" else 19), n, path, gen_bin=bbin)
+    out = path[:-4] + ".impl"
+    P.run_stream(bbin, ["run"], path, out)
+    ops, impl = P.read_lines(path), P.read_lines(out)
+    fails, checked = [], 0
+    hist = {"frames": 0, "ended-frames": 0, "key-changes-by-chain": 0, "setkey-switches": 0, "two-animator-apps": 0}
+    prev, cfg, dirty, chain_pending, stale, key_set = None, None, False, None, False, False
+    def fail(L, what, got, want=""):
+        fails.append(dict(line=L, directive=f"relational {what}", op=ops[L], got=got, want=want, ops=P.block_of(ops, L)))
+    for L, (op, o) in enumerate(zip(ops, impl)):
+        w = op.split(" ")
+        if w[0] == "reset": prev = None
+        if w[0] == "terminal" and prop == "C18" and prev is not None and not o.startswith(("panic", "bad")):
+            # Ended => the component holds the terminal values of the timeline that ended
+            if prev["state"] == 3 and not stale:
+                checked += 1
+                hist["terminal-checked"] = hist.get("terminal-checked", 0) + 1
+                if tuple(o.split(" ")) != prev["comp"]:
+                    fail(L, "whenever Ended, the target holds the timeline's terminal values", " ".join(prev["comp"]), o)
+            continue
+        if w[0] not in ("bapp", "frame", "setkey", "enable", "breset", "settl", "setpos"): continue
+        if o.startswith(("panic", "bad")): prev = None; continue
+        cur = parse_bevy(o)
+        if w[0] == "bapp":
+            cfg = dict(has_q=w[8] != "none", chain=w[7], sel=w[5])
+            if cfg["has_q"]: hist["two-animator-apps"] += 1
+            prev, dirty, key_set, stale = cur, False, False, False
+            continue
+        if prev is None: prev = cur; continue
+        if w[0] == "settl" and prev["state"] == 3: stale = True   # re-targeting while Ended does not restart (documented)
+        if w[0] == "breset": stale = False
+        if w[0] != "frame":
+            # an external operation: the next frame is not bound by the forward-only rule
+            if w[0] == "setkey" and cur["key"] != prev["key"]: key_set = True
+            dirty = True
+            # keep what the last *frame* announced: chain_animations reads it in the next frame
+            prev = dict(cur, ev=prev["ev"], frame_state=prev.get("frame_state", prev["state"]))
+            continue
+        delta = int(w[1])
+        hist["frames"] += 1
+        checked += 1
+        if prop == "C18":
+            if not prev["enabled"]:
+                if (cur["state"], cur["pos"], cur["comp"]) != (prev["state"], prev["pos"], prev["comp"]) and not key_set and not (cfg["sel"] != "none"):
+                    fail(L, "a disabled animator changes nothing", o, impl[L - 1])
+            elif cur["state"] in (1, 2):
+                base = 0 if (cfg["sel"] != "none" and cur["pos"] == delta and prev["pos"] != 0 and False) else prev["pos"]
+                # a selector may have reset the animator this frame (position restarts from 0)
+                if cur["pos"] != prev["pos"] + delta and cur["pos"] != delta:
+                    fail(L, "position grows by exactly the frame delta while waiting/playing", o, str(prev["pos"] + delta))
+            elif cur["state"] == 3:
+                hist["ended-frames"] += 1
+                if prev["state"] == 3 and not dirty and cfg["sel"] == "none":
+                    if cur["pos"] != prev["pos"]: fail(L, "position stops growing once ended", o, str(prev["pos"]))
+                    if cur["comp"] != prev["comp"]: fail(L, "component rests once ended", o, str(prev["comp"]))
+            if not dirty and cfg["sel"] == "none" and prev["enabled"]:
+                if cur["state"] < prev["state"]:
+                    fail(L, "state only moves forward None->Waiting->Playing->Ended", o, impl[L - 1])
+                if not cfg["has_q"]:
+                    want = [cur["state"]] if cur["state"] != prev["state"] else []
+                    if cur["ev"] != want:
+                        fail(L, "one event per state change carrying the end-of-frame state", o, str(want))
+        else:  # C19
+            if key_set and prev["enabled"]:
+                hist["setkey-switches"] += 1
+                if cur["comp"] != prev["comp"]:
+                    fail(L, "changing the key does not make the component jump", o, str(prev["comp"]))
+            if cur["key"] != prev["key"] and cur["key"] is not None:
+                # the key moved during a frame: only chain_animations can do that, and only on an Ended event
+                hist["key-changes-by-chain"] += 1
+                own_end = 3 in prev["ev"] and prev["state"] == 3 and (not cfg["has_q"] or prev["q"]["state"] != 3 or True)
+                p_ended_recently = prev.get("frame_state", prev["state"]) == 3 or prev["state"] == 3 or cur["state"] == 3
+                q_ended = cfg["has_q"] and (3 in prev["ev"] or 3 in cur["ev"])
+                if not (3 in prev["ev"] or 3 in cur["ev"]):
+                    fail(L, "chain fires only on an Ended event", o, impl[L - 1])
+                elif not p_ended_recently and q_ended:
+                    f = dict(line=L, directive="relational chain fires only when its own animator ended", op=ops[L], got=o, want=impl[L - 1], ops=P.block_of(ops, L), other_animator=True)
+                    fails.append(f)
+        prev, dirty, key_set = dict(cur, frame_state=cur["state"]), False, False
+    return dict(checked=checked, fails=fails, evaluations=checked, hist=hist)
+
+
+def rec_c19_other_animator(f):
+    """F-C19: the chain fired on the Ended event of another animator (different component type) on the
+    same entity — AnimationStateChanged carries only the entity."""
+    return bool(f.get("other_animator"))
+
+
+BEVY_FLOORS = {"quick": {"op:frame": 3000, "op:bapp": 150, "frames": 2000}}
+PLANS["C18"] = dict(suites=[Suite("bevy", 300, 15000, crate="bevy")], floors={"quick": dict(BEVY_FLOORS["quick"], **{"ended-frames": 200})}, extra=extra_bevy,
+                    assumptions=["bevy's scheduler, change detection and event buffering are abstracted (one entity; events of frame N readable in frame N+1; the order of systems bevy leaves unordered is a parameter and the implementation must follow one order consistently) and exercised by the real App with a hand-driven Time",
+                                 "the timeline in place when Ended was reached (set_timeline while Ended does not restart, as documented)"])
+PLANS["C19"] = dict(suites=[Suite("bevy", 300, 15000, crate="bevy")], floors={"quick": dict(BEVY_FLOORS["quick"], **{"key-changes-by-chain": 20, "two-animator-apps": 30})}, extra=extra_bevy,
+                    recognisers={"c19_other_animator": rec_c19_other_animator},
+                    assumptions=["as C18; both relative orders of chain_animations/select_animation and of animate<Q>/chain_animations are modelled"])
